@@ -1,6 +1,8 @@
 (** C15 - human-readable formatters.  Transcription of /repo/src/format.rs
     (Display impls, lines 74-221, UNITS table lines 133-140) and of the
     eight-line loop of number_prefix-0.4.0 (src/lib.rs:290-312).
+    The specification-side vocabulary of the statements in props/C15.v is in
+    model/FmtSpec.v.
     Strings are [list N] of code points (all output is ASCII).
     binary64 arithmetic is Flocq's BinarySingleNaN (prec 53, emax 1024).
     Definitions only. *)
@@ -213,13 +215,16 @@ Definition SYM_BINARY : list string := ["Ki"; "Mi"; "Gi"; "Ti"; "Pi"; "Ei"; "Zi"
 
 (** format.rs:142-167; [binary] selects NumberPrefix::binary (HumanBytes and
     BinaryBytes, which are textually the same impl) or ::decimal (DecimalBytes) *)
-Definition bytes_fmt (binary : bool) (n : N) : list N :=
+Definition bytes_fmt (binary : bool) (n : N) : outcome (list N) :=
   let kilo := f64_of_N (if binary then 1024 else 1000) in
   let '(number, prefix) := number_prefix (f64_of_N n) kilo in       (* self.0 as f64 *)
-  if prefix =? 0 then fmt_fixed 0 (B2SF number) ++ str " B"         (* Standalone: {number:.0} B *)
-  else fmt_fixed 2 (B2SF number) ++ [CH_SP]
-       ++ str (nth (N.to_nat (prefix - 1)) (if binary then SYM_BINARY else SYM_DECIMAL) ""%string)
-       ++ str "B".                                                  (* {number:.2} {prefix}B *)
+  if prefix =? 0 then Ok (fmt_fixed 0 (B2SF number) ++ str " B")    (* Standalone: {number:.0} B *)
+  else
+    (* number_prefix lib.rs:310 [prefixes[prefix - 1]] on an array of 8: site 5 *)
+    match nth_error (if binary then SYM_BINARY else SYM_DECIMAL) (N.to_nat (prefix - 1)) with
+    | None => Panic 5
+    | Some sym => Ok (fmt_fixed 2 (B2SF number) ++ [CH_SP] ++ str sym ++ str "B")  (* {number:.2} {prefix}B *)
+    end.
 
 (* ------------------------------------------------------------------ HumanFloatCount (format.rs:186-221) *)
 Fixpoint split_once (c : N) (s : list N) : option (list N * list N) :=
@@ -278,7 +283,7 @@ Definition fmt_model (c : fcase) : outcome (list N) :=
   | CCount n => human_count n
   | CFDur s n => Ok (formatted_duration s n)
   | CHDur s n a => human_duration s n a
-  | CBytes k n => Ok (bytes_fmt (negb (k =? 1)) n)
+  | CBytes k n => bytes_fmt (negb (k =? 1)) n
   | CFloat p b => human_float_count p b
   end.
 
